@@ -12,8 +12,8 @@ META = dict(
 
 
 def scripts(rnd, ntables, types):
-    for _ in range(ntables):
-        t = make_table(rnd, types)
+    for ti in range(ntables):
+        t = make_table(rnd, types, shape=SHAPES[ti] if ti < len(SHAPES) else None)
         if not t['regs']:
             continue
         sc = [table_line(t)]
